@@ -527,6 +527,33 @@ NameWalkN(m, p, lim, acc, used, endp, seg, fuel) ==
 PName(newRule, m, pos, lim) ==
   IF newRule THEN NameWalkN(m, pos, lim, <<>>, 0, -1, pos, NameFuel(m)) ELSE ParseName(m, pos, lim)
 
+\* A name read without any message context (the new API's ParseBytes /
+\* SplitBytes of &Name, NameBuf, RevNameBuf; the established Name::parse and
+\* Name::from_octets): labels up to the root, at most 255 octets with the
+\* root, and a compression pointer is an error like any other label type.
+RECURSIVE PlainWalk(_, _, _, _, _)
+PlainWalk(m, p, lim, acc, used) ==
+  IF p >= lim THEN NFail("short")
+  ELSE LET b == At(m, p) IN
+    IF b = 0 THEN [ok |-> TRUE, why |-> "", name |-> acc, next |-> p + 1,
+                   wlen |-> used + 1, comp |-> FALSE]
+    ELSE IF b <= 63 THEN
+      IF p + 1 + b > lim THEN NFail("short")
+      ELSE IF used + b + 1 >= 255 THEN NFail("long")
+      ELSE PlainWalk(m, p + 1 + b, lim, Append(acc, Slice(m, p + 1, p + 1 + b)), used + b + 1)
+    ELSE IF b >= 192 THEN NFail("pointer")
+    ELSE NFail("labeltype")
+PlainName(m, pos, lim) == PlainWalk(m, pos, lim, <<>>, 0)
+
+\* The reading routes: "old" / "new" read inside a message (pointers by the
+\* RFC's rule / by the new codec's rule of today), "plain" reads a byte
+\* string that has no message around it.
+Route(newRule) == IF newRule THEN "new" ELSE "old"
+PNameR(r, m, pos, lim) ==
+  CASE r = "old" -> ParseName(m, pos, lim)
+    [] r = "new" -> NameWalkN(m, pos, lim, <<>>, 0, -1, pos, NameFuel(m))
+    [] OTHER -> PlainName(m, pos, lim)
+
 CvFail == [ok |-> FALSE, und |-> FALSE, item |-> <<>>, next |-> 0]
 CvName(nr, m, pos) ==
   LET n == PName(nr, m, pos, Len(m)) IN
@@ -537,35 +564,94 @@ CvQuestion(nr, m, pos) ==
   ELSE [ok |-> TRUE, und |-> FALSE, item |-> <<n.name, U16(m, n.next), U16(m, n.next + 2)>>,
         next |-> n.next + 4]
 
-CvRdata(nr, m, type, rdpos, rdlen) ==
-  LET lim == rdpos + rdlen
-      one(p) == LET n == PName(nr, m, p, lim)
-                IN IF n.ok /\ n.next = lim THEN Rd("names", TRUE, <<n.name>>, <<>>)
-                   ELSE Rd("names", FALSE, <<>>, <<>>)
-  IN CASE type \in {T_NS, T_CNAME, T_PTR} -> one(rdpos)
-       [] type = T_MX -> IF rdlen < 2 THEN Rd("names", FALSE, <<>>, <<>>) ELSE one(rdpos + 2)
-       [] type = T_SOA ->
-            LET n1 == PName(nr, m, rdpos, lim) IN
-            IF ~n1.ok THEN Rd("names", FALSE, <<>>, <<>>)
-            ELSE LET n2 == PName(nr, m, n1.next, lim) IN
-              IF n2.ok /\ n2.next + 20 = lim THEN Rd("names", TRUE, <<n1.name, n2.name>>, <<>>)
-              ELSE Rd("names", FALSE, <<>>, <<>>)
-       [] OTHER -> Rdata(m, type, rdpos, rdlen)
+\* RDATA layouts beyond Rdata() that both codecs know.  SRV target, DNAME
+\* target, NSEC next name and RRSIG signer are never compressed by a sender
+\* (RFC 2782, 6672, 4034) and the new codec reads them as plain names on
+\* every route; RFC 3597 4 lets a receiver decompress some of them, so for a
+\* pointer met there inside a message the referee gives no verdict.  RP has
+\* two names that receivers decompress.  TXT is one or more character
+\* strings, HINFO exactly two, filling the RDATA (RFC 1035 3.3); an empty
+\* TXT and a type bitmap that is not in the canonical form of RFC 4034 4.1.2
+\* are left open (known disagreements of the codecs, D_rdata_txt_empty and
+\* D_rdata_bitmap_noncanonical).
+T_HINFO == 13   T_TXT == 16   T_RP == 17   T_SRV == 33   T_DNAME == 39   T_RRSIG == 46   T_NSEC == 47
 
-CvRecord(nr, m, pos) ==
-  LET n == PName(nr, m, pos, Len(m)) IN
+RECURSIVE StrWalk(_, _, _, _)
+StrWalk(m, p, lim, n) ==             \* the number of strings that fill p..lim, or -1
+  IF p = lim THEN n
+  ELSE IF p + 1 + At(m, p) > lim THEN -1
+  ELSE StrWalk(m, p + 1 + At(m, p), lim, n + 1)
+
+RECURSIVE BitmapWalk(_, _, _, _)
+BitmapWalk(m, p, lim, last) ==
+  IF p = lim THEN TRUE
+  ELSE IF p + 2 > lim THEN FALSE
+  ELSE LET w == At(m, p)  l == At(m, p + 1) IN
+    IF w <= last \/ l = 0 \/ l > 32 \/ p + 2 + l > lim THEN FALSE
+    ELSE IF At(m, p + 1 + l) = 0 THEN FALSE
+    ELSE BitmapWalk(m, p + 2 + l, lim, w)
+BitmapCanonical(m, p, lim) == p < lim /\ BitmapWalk(m, p, lim, -1)
+
+RdBad == Rd("names", FALSE, <<>>, <<>>)
+RdOpen == Rd("opaque", TRUE, <<>>, <<>>)
+\* a name that is never decompressed, at p, inside RDATA ending at lim
+EmbName(r, m, p, lim) ==
+  LET n == PlainName(m, p, lim)
+  IN [ok |-> n.ok, open |-> ~n.ok /\ n.why = "pointer" /\ r # "plain", name |-> n.name, next |-> n.next]
+
+CvRdataR(r, m, type, rdpos, rdlen) ==
+  LET lim == rdpos + rdlen
+      one(p) == LET n == PNameR(r, m, p, lim)
+                IN IF n.ok /\ n.next = lim THEN Rd("names", TRUE, <<n.name>>, <<>>) ELSE RdBad
+      emb(p, last) == LET n == EmbName(r, m, p, lim)
+                      IN IF n.open THEN RdOpen
+                         ELSE IF n.ok /\ (~last \/ n.next = lim) THEN Rd("names", TRUE, <<n.name>>, <<>>)
+                         ELSE RdBad
+  IN CASE type \in {T_NS, T_CNAME, T_PTR} -> one(rdpos)
+       [] type = T_MX -> IF rdlen < 2 THEN RdBad ELSE one(rdpos + 2)
+       [] type = T_SOA ->
+            LET n1 == PNameR(r, m, rdpos, lim) IN
+            IF ~n1.ok THEN RdBad
+            ELSE LET n2 == PNameR(r, m, n1.next, lim) IN
+              IF n2.ok /\ n2.next + 20 = lim THEN Rd("names", TRUE, <<n1.name, n2.name>>, <<>>)
+              ELSE RdBad
+       [] type = T_RP ->
+            LET n1 == PNameR(r, m, rdpos, lim) IN
+            IF ~n1.ok THEN RdBad
+            ELSE LET n2 == PNameR(r, m, n1.next, lim) IN
+              IF n2.ok /\ n2.next = lim THEN Rd("names", TRUE, <<n1.name, n2.name>>, <<>>)
+              ELSE RdBad
+       [] type = T_SRV -> IF rdlen < 6 THEN RdBad ELSE emb(rdpos + 6, TRUE)
+       [] type = T_DNAME -> emb(rdpos, TRUE)
+       [] type = T_RRSIG -> IF rdlen < 18 THEN RdBad ELSE emb(rdpos + 18, FALSE)
+       [] type = T_NSEC ->
+            LET n == EmbName(r, m, rdpos, lim) IN
+            IF n.open THEN RdOpen
+            ELSE IF ~n.ok THEN RdBad
+            ELSE IF BitmapCanonical(m, n.next, lim) THEN Rd("names", TRUE, <<n.name>>, <<>>)
+            ELSE RdOpen
+       [] type = T_TXT ->
+            IF rdlen = 0 THEN RdOpen
+            ELSE Rd("strs", StrWalk(m, rdpos, lim, 0) > 0, <<>>, <<>>)
+       [] type = T_HINFO -> Rd("strs", StrWalk(m, rdpos, lim, 0) = 2, <<>>, <<>>)
+       [] OTHER -> Rdata(m, type, rdpos, rdlen)
+CvRdata(nr, m, type, rdpos, rdlen) == CvRdataR(Route(nr), m, type, rdpos, rdlen)
+
+CvRecordR(r, m, pos) ==
+  LET n == PNameR(r, m, pos, Len(m)) IN
   IF ~n.ok \/ n.next + 10 > Len(m) THEN CvFail
   ELSE LET rdlen == U16(m, n.next + 8)
            rdpos == n.next + 10
        IN IF rdpos + rdlen > Len(m) THEN CvFail
           ELSE LET t == U16(m, n.next)
-                   rd == CvRdata(nr, m, t, rdpos, rdlen)
+                   rd == CvRdataR(r, m, t, rdpos, rdlen)
                IN IF rd.k = "opaque" THEN [ok |-> FALSE, und |-> TRUE, item |-> <<>>, next |-> 0]
                   ELSE IF ~rd.ok THEN CvFail
                   ELSE [ok |-> TRUE, und |-> FALSE,
                         item |-> <<n.name, t, U16(m, n.next + 2), U16(m, n.next + 4), U16(m, n.next + 6),
                                    rd.names, rd.opts>>,
                         next |-> rdpos + rdlen]
+CvRecord(nr, m, pos) == CvRecordR(Route(nr), m, pos)
 
 \* the EDNS record of the new API: 00 00 29, class, ttl, RDLENGTH, options
 CvEdns(m, pos) ==
@@ -612,6 +698,33 @@ CodecView(nr, m, starts) ==
    \* an OPT record with the root owner, whichever way it is obtained
    edns |-> [i \in 1..Len(starts) |-> EdnsView(m, starts[i])],
    msg |-> NewView(nr, m)]
+
+\* The routes without decompression: the octets from..to of m taken as a
+\* byte string of their own.  n: a name split off its front (and `exact`:
+\* the string is that name and nothing else); sk: a name skipped, a pointer
+\* ending it unread (the new API's UnparsedName, the established
+\* ParsedName::skip); q, rn: a question / a record with every name in it
+\* plain; ro: the same string handed to the message route of the
+\* established codec as if it were a message (offsets from its start).
+PvName(b) ==
+  LET n == PlainName(b, 0, Len(b))
+  IN [ok |-> n.ok, item |-> IF n.ok THEN <<n.name>> ELSE <<>>, next |-> IF n.ok THEN n.next ELSE 0,
+      exact |-> n.ok /\ n.next = Len(b)]
+PvSkip(b) ==
+  LET k == SkipName(b, 0, Len(b)) IN [ok |-> k.ok, next |-> k.next]
+PvQuestion(b) ==
+  LET n == PlainName(b, 0, Len(b)) IN
+  IF ~n.ok \/ n.next + 4 > Len(b) THEN [ok |-> FALSE, item |-> <<>>, next |-> 0, exact |-> FALSE]
+  ELSE [ok |-> TRUE, item |-> <<n.name, U16(b, n.next), U16(b, n.next + 2)>>, next |-> n.next + 4,
+        exact |-> n.next + 4 = Len(b)]
+PvRecord(r, b) ==
+  LET x == CvRecordR(r, b, 0)
+  IN [ok |-> x.ok, und |-> x.und, item |-> x.item, next |-> x.next, exact |-> x.ok /\ x.next = Len(b)]
+PlainView(m, probes) ==
+  [i \in 1..Len(probes) |->
+     LET b == Slice(m, probes[i][1], probes[i][2])
+     IN [n |-> PvName(b), sk |-> PvSkip(b), q |-> PvQuestion(b),
+         rn |-> PvRecord("plain", b), ro |-> PvRecord("old", b)]]
 
 ---------------------------------------------------------------------------
 (* Laws (checked by TLC over the enumerated messages in MC_Wire)            *)
